@@ -95,17 +95,23 @@ def run(tier: str, seed: int) -> int:
     known_ids = {f["id"] for f in chk.known}
     # -- a. output pairs -------------------------------------------------------------------------------------
     progs = [(n, s, None) for n, s in whole.repo_sources()]
-    plan = [("core", 60 if tier == "quick" else 3000), ("funcs", 60 if tier == "quick" else 3000), ("calls", 40 if tier == "quick" else 2000),
-            ("loopctl", 80 if tier == "quick" else 4000)]
+    plan = [("core", 60 if tier == "quick" else 600), ("funcs", 60 if tier == "quick" else 600), ("calls", 40 if tier == "quick" else 400),
+            ("loopctl", 80 if tier == "quick" else 800)]
     for kind, n in plan:
         for i in range(n):
             g, prog, src, pool = whole.gen_program(r, kind)
             progs.append((f"{kind}:{i}", src, (prog, pool)))
-    for i in range(40 if tier == "quick" else 1500):
+    for i in range(40 if tier == "quick" else 400):
         names = r.sample(SAFE_NAMES + TRICKY_NAMES, r.randrange(2, 5))
+        if r.random() < 0.4:
+            # names that differ only where the mangled label has its dot: `valve_a` (label `valve.a`) next to `valvesa`,
+            # `valve_a` next to `valve_ab` is the known prefix finding and is left out
+            stem, tail = r.choice(["valve", "tank", "set", "x"]), r.choice(["a", "on", "1", "up"])
+            names = [n for n in names if not n.startswith(stem)][:2] + [f"{stem}_{tail}", f"{stem}{r.choice('sxz0')}{tail}"]
+            r.shuffle(names)
         progs.append((f"ident:{i}", ident_program(r, names), None))
     # programs split into library modules (function labels carry the module name; early returns inside library functions)
-    for i in range(30 if tier == "quick" else 1500):
+    for i in range(30 if tier == "quick" else 300):
         msrc, merged, desc = c13.gen_split(r)
         progs.append((f"split:{i}", msrc, None))
     for name, src, gp in progs:
